@@ -205,9 +205,15 @@ def install_env(mods):
     for name in ('ikesa', 'message', 'crypto', 'ikesacontroller'):
         if name in mods:
             mods[name].os = fake_os
-    if 'crypto' in mods and not isinstance(getattr(mods['crypto'], 'ec', None), _DetEc):
-        mods['crypto'].ec = _DetEc(mods['crypto'].ec)
-        mods['crypto'].dh = _DetDh(mods['crypto'].dh)
+    cr = mods.get('crypto')
+    if cr is not None and hasattr(cr, 'ec') and not isinstance(cr.ec, _DetEc):
+        cr.ec = _DetEc(cr.ec)
+    if cr is not None and hasattr(cr, 'dh') and not isinstance(cr.dh, _DetDh):
+        cr.dh = _DetDh(cr.dh)
+    if cr is not None and hasattr(cr, 'secrets'):
+        # a tree that draws private exponents itself: deterministic as well
+        cr.secrets = types.SimpleNamespace(randbelow=lambda n: int.from_bytes(ENV.plain(n.bit_length() // 8 + 8), 'big') % n,
+                                           token_bytes=lambda n=32: ENV.plain(n))
     mods['ikesa'].time = fake_time
     mods['ikesa'].random = fake_random
     mods['xfrm'].random = fake_random
